@@ -431,12 +431,18 @@ def run_shard(sh):
             env.clear_tree()
             env.reset()
             model = Model(C)
+            # what was read before the writes (on the empty tree, and after every step) must not stick to the process
+            for v in diff(observe_noreset(C), expected(C, model)):
+                rec.violation("no-reset/before-any-write/" + v["signature"], "sequence", {"hist": []}, v["observed"], v["expected"])
             for i, op in enumerate(seq):
                 got = apply_real(C, op, reset=False)
                 model, want = model.apply(op)
                 rec.transitions += 1
                 if got != want:
                     rec.violation("operation-result/no-reset/" + bfs._sig(op, got, want), "sequence", {"hist": list(seq[: i + 1])}, got, want)
+                if i < len(seq) - 1:
+                    for v in diff(observe_noreset(C), expected(C, model)):
+                        rec.violation("no-reset/read-between-writes/" + v["signature"], "sequence", {"hist": list(seq[: i + 1])}, v["observed"], v["expected"])
             # observation without reset: reads must reflect what this very process wrote
             obs = observe_noreset(C)
             exp = expected(C, model)
@@ -468,12 +474,18 @@ def replay_case(kind, case):
     from mc import bfs
     if kind == "sequence":
         env.reset()
+        for v in diff(observe_noreset(C), expected(C, model)):
+            out.append(dict(v, signature="no-reset/before-any-write/" + v["signature"]))
         for i, op in enumerate(hist):
             got = apply_real(C, op, reset=False)
             model, want = model.apply(op)
             if got != want:
                 out.append(dict(signature="operation-result/no-reset/" + bfs._sig(op, got, want), observed=got, expected=want))
+            if i < len(hist) - 1:
+                for v in diff(observe_noreset(C), expected(C, model)):
+                    out.append(dict(v, signature="no-reset/read-between-writes/" + v["signature"]))
         for v in diff(observe_noreset(C), expected(C, model)):
+            out.append(dict(v, signature="no-reset/read-between-writes/" + v["signature"]))
             v["signature"] = "no-reset/" + v["signature"]
             out.append(v)
         return out
